@@ -147,7 +147,11 @@ Section Model.
   | XAccept                     (* registered; handling routine started *)
   | XRefuse                     (* closed by the server, never registered *)
   | XDisp (key decl : nat)      (* dispatched, attributed to identity {key; decl} *)
-  | XNone.                      (* not dispatched *)
+  | XNone                       (* not dispatched *)
+  | XBroken.                    (* observation only, never produced by the model: the operation
+                                   made the implementation panic, or a connection attempt / send
+                                   was neither served nor closed by the server within the
+                                   harness's deadline, or the listener could not be reached *)
 
   Record state := mkState {
     st_vp : vp;
